@@ -7,6 +7,15 @@ tables, row by row.
 Oracle (real code only): write -> read back -> solution type and the set of (node, dof, value) prescriptions per
 constraint kind (to 6 / 7 / 13 digits); a file addressing a node group by name vs the same file listing the
 members explicitly must read to the same prescription sets.
+History dimension (round 3, seeded C03-6): the object that is written is not only "as constructed".  Between construction
+and write() it is modified through public means (in-place edits of the arrays returned by `.data` / `.values` / of the
+array the caller handed in, the data setter, `update_data`, `overwrite`, `.loc[...]` / `.iloc[...]` write-through,
+`update(..., allow_overwrite=True)`, replacing / adding / removing a kind, changing the solution type): prescriptions are
+added, changed and RELEASED (NaN).  What the control file must carry is the object's CURRENT public state: a snapshot of
+(`.ids`, `.data`) of every kind and of the solution type is taken just before write(); the model is fed with that state,
+the read-back prescriptions are compared with it, a fresh object constructed independently with the same content must
+write the same bytes, a second write of the same object must write the same bytes and leave the conditions unchanged,
+and read -> modify -> write -> read must give the modified state.
 """
 import shutil
 
@@ -21,7 +30,9 @@ LEAN_MODULES = ['Femio.Props.C03']
 THEOREMS = ['C03_boundary_roundtrip', 'C03_spring_roundtrip', 'C03_cload_roundtrip', 'C03_fixtemp_roundtrip',
             'C03_cflux_roundtrip', 'C03_group_expansion', 'C03_solution_type', 'C03_solution_type_known',
             'C03_boundary_dof_gt3_lost', 'C03_line_roundtrip',
-            'C03_file_roundtrip', 'C03_roundtrip', 'C03_cflux_both_merged']
+            'C03_file_roundtrip', 'C03_roundtrip', 'C03_cflux_both_merged',
+            'C03_history_fresh_any_cfg', 'C03_history_roundtrip', 'C03_history_property', 'C03_history_fresh',
+            'C03_history_poke_state', 'C03_history_counterexample_frame_writer']
 PARTIAL = [
     'C03_file_roundtrip / C03_roundtrip (whole control file: readCnt ng (writeCnt c) = expectedCnt c, prescription sets '
     'per kind + solution type, every node-group map) are over the model of write_cnt at default settings (CntIn: '
@@ -30,20 +41,46 @@ PARTIAL = [
     'C03_cflux_both_merged says what the reader does then); group-addressed rows never occur in a written file, so '
     'node-group expansion stays a section-level theorem (C03_group_expansion)',
     'decimal <-> binary rounding of %.5E / %E / %.12E and float() is runtime (trusted: correctly rounded)',
+    'C03_history_* are over the history model Model/FistrCntHist.lean (a live kind = ids + ndarray + pandas frame; ops: '
+    'in-place poke, data setter, write-through, put / pop of a kind, solution type), tied to the real FEMAttribute by the '
+    'driver command c03.hist on every decimal history inside that alphabet (public state compared = correspondence; what the '
+    'pandas frames hold is recorded in the distribution only, it is not an observable of this property); '
+    'update(allow_overwrite=True) (pandas combine_first) and column scaling are exercised by the oracle only',
 ]
 RULE = ('seeded generator: a combinatorial mesh as in C01 (arbitrary ids / order / types); solution type STATIC or HEAT; '
         'for each of boundary / spring / cload an optional table over a random node subset (distinct ids, arbitrary row '
-        'order) with an arbitrary NaN pattern having at least one value (all-NaN rows allowed); optional fixtemp and '
-        'cflux or pure_cflux lists; values = decimals with the digits of the section format (6 / 7 / 13) or arbitrary '
-        'doubles; node-group stream: 1-3 groups (plus ALL) over arbitrary node subsets used in place of explicit ids in '
-        'a random subset of the rows. distinct = distinct case JSON; non-trivial = at least one prescription')
+        'order) with an arbitrary NaN pattern having at least one value (all-NaN rows allowed; rows whose values COINCIDE: '
+        'the same value on every dof / on the prescribed dofs, zeros((n, 3))); optional fixtemp and cflux or pure_cflux '
+        'lists; values = decimals with the digits of the section format (6 / 7 / 13) or arbitrary doubles; each kind put into '
+        'the object by constraints[kind] = FEMAttribute(..) or constraints.update_data(ids, {kind: A}); 12 % of the cases '
+        'with non-default frequency / write_visual / heat settings (oracle only). HISTORY dimension (60 % of the cases): '
+        '1-4 public modifications between construction and write(), generated against the live object - in-place edits '
+        'through the arrays returned by .data / .values / kept by the caller (single cells: prescribe a free dof, change a '
+        'value, RELEASE a prescribed dof; whole rows incl. data[-1] = ..; column scaling), data setter / update_data / '
+        'overwrite, .loc / .iloc write-through, update(.., allow_overwrite=True) of the attribute and of constraints, '
+        'replacing / adding / removing a kind, changing the solution type; an op that raises is counted and skipped. The '
+        'expected conditions are always the snapshot (.ids, .data, solution type) taken just before write(); the model is '
+        'fed with that state; the conditions the object holds must be the same after write(). Extras on half of the cases: '
+        'second write of the same object (same bytes; or 1-2 more modifications between the two writes), an independently constructed fresh object with the snapshot content '
+        '(same bytes), read -> modify (0-3 ops) -> write -> read starting from the written file or from the file that '
+        'addresses node groups. Node-group stream: 1-3 groups (plus ALL) over arbitrary node subsets (unreferenced nodes '
+        'included) used in place of explicit ids in a random subset of the rows. distinct = distinct input JSON; '
+        'non-trivial = at least one prescription in the state that is written')
 ASSUMPTIONS = [
     'constraint tables have the 3 translational dofs (the reader allocates 3 columns; every fixture of femio does); '
     '6-dof tables run in the labelled stream `outside:dof6`',
-    'a table has at least one non-NaN entry; all-NaN tables run in the labelled stream `outside:all-nan`',
+    'a boundary / cload table has at least one non-NaN entry at write() (np.concatenate of nothing raises); all-NaN tables '
+    'run in the labelled stream `outside:all-nan`; an edit history that ends there is refilled',
     'cflux and pure_cflux are not present at the same time (labelled stream `outside:cflux+pure_cflux`)',
     'ids < 2^53; node-group names match [A-Za-z]\\w* (the reader recognises a group row by its first letter)',
-    'all settings other than solution_type at their defaults',
+    'settings other than solution_type: defaults, or frequency / write_visual / heat (oracle only); free-text settings '
+    '(output_res, output_vis, step) are not generated',
+    'the public state of a kind is (.ids, .data): after an in-place edit through .data the pandas frame of the attribute '
+    '(.loc / data_frame) is stale on the unchanged tree - that inconsistency is C08 territory and is not judged here; the '
+    'writer is held to .data, which is what the unchanged tree writes and what the user edited',
+    'FEMAttribute.update(.., allow_overwrite=False) is not generated for an existing kind (DataFrame.append does not exist in '
+    'the installed pandas 3: it raises on the unchanged tree); the writer emits no !NGROUP, so node groups cannot be carried '
+    'by a modified object - the group clause stays a clause about control-file texts read with a mesh file defining the groups',
 ]
 TRUSTED = ['C03: correctly rounded printf / float() (libc, CPython)']
 
@@ -63,9 +100,23 @@ def rand_val(rnd, p, decimal):
     return ['h', float(rnd.choice([rnd.uniform(-10, 10), rnd.uniform(-1, 1) * 10.0 ** rnd.randint(-20, 20), 1 / 3, 0.0])).hex()]
 
 
+def gen_cells(rnd, p, decimal, width=3, density=.5):
+    """one table row.  Besides independent cells: the idioms in which values COINCIDE - a node fixed / loaded with the same
+    value on every dof (`zeros((n, 3))`, a load along the diagonal), the same value on the prescribed dofs only"""
+    style = rnd.choice(['free'] * 6 + ['same-all', 'same-all', 'same-prescribed'])
+    if style == 'same-all':
+        v = rand_val(rnd, p, decimal) if rnd.random() < .6 else (['s', False, 0, 0] if decimal else ['h', (0.0).hex()])
+        return [list(v) for _ in range(width)]
+    cells = [rand_val(rnd, p, decimal) if rnd.random() < density else None for _ in range(width)]
+    if style == 'same-prescribed':
+        v = rand_val(rnd, p, decimal)
+        cells = [None if c is None else list(v) for c in cells]
+    return cells
+
+
 def gen_table(rnd, ids, p, decimal, width=3, all_nan=False):
     sub = rnd.sample(ids, rnd.randint(1, min(len(ids), 6)))
-    rows = [[i, [rand_val(rnd, p, decimal) if rnd.random() < .5 else None for _ in range(width)]] for i in sub]
+    rows = [[i, gen_cells(rnd, p, decimal, width)] for i in sub]
     if all_nan:
         return [[i, [None] * width] for i, _ in rows]
     if all(c is None for _, r in rows for c in r):
@@ -91,33 +142,59 @@ def gen_case(rnd, decimal=None):
         if rnd.random() < .5:
             sub = rnd.sample(ids, rnd.randint(1, min(len(ids), 5)))
             case['scalars'][k] = [[i, rand_val(rnd, 12, decimal)] for i in sub]
+    # how each kind gets into the object: FEMAttribute assigned to constraints[kind], or constraints.update_data(ids, {kind: A})
+    # other settings the writer puts into the control file next to the conditions (oracle only: the model is of the defaults)
+    if rnd.random() < .12:
+        opts = {'frequency': rnd.randint(2, 50), 'write_visual': False,
+                'heat': [[rnd.choice([0.0, 0.5, 1.0]), float(rnd.randint(1, 100)), 0.0, 0.0, rnd.randint(1, 40), 1e-6]]}
+        case['settings'] = {k: opts[k] for k in rnd.sample(sorted(opts), rnd.randint(1, 3))}
+    case['construct'] = {k: rnd.choice(['setitem', 'setitem', 'update_data']) for k in list(case['tables']) + list(case['scalars'])}
     return case
 
 
-def build_fem(case):
+def rows_array(rows, p):
+    return np.array([[np.nan if c is None else val_float(c, p) for c in r] for r in rows], dtype=float)
+
+
+def build_fem(case, caller=None):
+    """the object as constructed.  `caller` (dict) receives, per kind, the very array that was handed to femio (the
+    caller keeps it: FEMAttribute aliases it, so editing it later is one more public way of editing the table)"""
     from femio import FEMAttribute
     fd = c01.build_fem(case['mesh'])
     fd.settings['solution_type'] = case['solution']
-    for k, rows in case['tables'].items():
-        data = np.array([[np.nan if c is None else val_float(c, DIG[k]) for c in r] for _, r in rows], dtype=float)
-        fd.constraints[k] = FEMAttribute(k, ids=np.array([i for i, _ in rows], dtype=np.int64), data=data, silent=True)
-    for k, rows in case['scalars'].items():
-        fd.constraints[k] = FEMAttribute(k, ids=np.array([i for i, _ in rows], dtype=np.int64),
-                                         data=np.array([[val_float(v, 12)] for _, v in rows], dtype=float), silent=True)
+    how = case.get('construct', {})
+    for k, v in (case.get('settings') or {}).items():
+        fd.settings[k] = np.array(v, dtype=float) if k == 'heat' else v
+    items = [(k, [i for i, _ in rows], rows_array([r for _, r in rows], DIG[k])) for k, rows in case['tables'].items()]
+    items += [(k, [i for i, _ in rows], rows_array([[v] for _, v in rows], 12)) for k, rows in case['scalars'].items()]
+    order = case.get('order')
+    if order:
+        items.sort(key=lambda it: order.index(it[0]) if it[0] in order else len(order))
+    for k, ids, data in items:
+        ids = np.array(ids, dtype=np.int64)
+        if how.get(k) == 'update_data':     # idiom of tests/util/test_random_generator.py
+            X.quiet(fd.constraints.update_data, ids, {k: data})
+        else:
+            fd.constraints[k] = FEMAttribute(k, ids=ids, data=data, silent=True)
+        if caller is not None:
+            caller[k] = data
     return fd
 
 
-def real_write(ctx, case, tag='w'):
+def write_obj(ctx, fd, tag='w'):
     d = ctx.tmp / tag
     if d.exists():
         shutil.rmtree(d)
     d.mkdir(parents=True)
-    fd = build_fem(case)
     X.quiet(fd.write, 'fistr', d / 'mesh')
     return (d / 'mesh.msh').read_text().split('\n')[:-1], (d / 'mesh.cnt').read_text().split('\n')[:-1]
 
 
-def real_read(ctx, msh, cnt, tag='r'):
+def real_write(ctx, case, tag='w'):
+    return write_obj(ctx, build_fem(case), tag)
+
+
+def real_read(ctx, msh, cnt, tag='r', want_fd=False):
     from femio import FEMData
     d = ctx.tmp / tag
     if d.exists():
@@ -135,7 +212,7 @@ def real_read(ctx, msh, cnt, tag='r'):
             out[k] = [[int(i), [None if x != x else float(x) for x in r]] for i, r in zip(a.ids, data)]
         else:
             out[k] = None
-    return out
+    return (out, fd) if want_fd else out
 
 
 def presc(rows):
@@ -154,6 +231,401 @@ def presc_of_case(case, k):
 def same_presc(got, want, tol):
     return [(a[0], a[1]) for a in got] == [(b[0], b[1]) for b in want] and all(
         X.close(a[2], b[2], tol) for a, b in zip(got, want))
+
+
+# ------------------------------------------------------------------ histories: public modifications before write()
+#
+# op alphabet (JSON lists; `rows` = one list of cells per row, cell = value | None (= NaN = free); scalar kinds: 1 cell)
+#   ['poke', kind, via, [[row, col, cell] ...]]   arr[row, col] = cell         arr = attr.data | attr.values | the array
+#   ['pokerow', kind, via, row, cells]            arr[row] = cells                   the caller handed to femio
+#   ['scale', kind, via, col, factor]             arr[:, col] *= factor
+#   ['setter', kind, how, rows]                   attr.data = A | attr.update_data(A) | constraints.overwrite(kind, A)
+#   ['loc', kind, how, keys, rows]                attr.loc[ids].data = A | attr.iloc[positions].data = A  (write-through)
+#   ['update', kind, how, ids, rows]              attr.update(ids, A, allow_overwrite=True) |
+#                                                 constraints.update_data(ids, {kind: A}, allow_overwrite=True)
+#   ['replace', kind, how, ids, rows]             constraints[kind] = FEMAttribute(..) | constraints.overwrite(kind, A, ids=ids)
+#                                                 | constraints.update({kind: FEMAttribute(..)})
+#   ['add', kind, how, ids, rows]                 constraints.update_data(ids, {kind: A}) | constraints[kind] = FEMAttribute(..)
+#   ['pop', kind]                                 constraints.pop(kind)
+#   ['solution', s]                               settings['solution_type'] = s
+# An op that raises (e.g. numpy's "assignment destination is read-only" on the array of an attribute whose frame was
+# replaced) is not the business of this property (FEMAttribute's own consistency is C08): the outcome is counted and the
+# history goes on.  Whatever the ops did, the truth is the snapshot of the public state taken just before write().
+
+def snapshot(fd, frame=False):
+    """the CURRENT public state of the conditions: solution type, kinds in dict order, (`.ids`, `.data`) per kind
+    (frame=True: what the pandas frames `data_frame` hold instead of `.data` - only for the tie of the history model)"""
+    snap = {'solution': str(fd.settings.get('solution_type')), 'order': [], 'kinds': {}}
+    for k in fd.constraints.keys():
+        if k in TABLES + SCALARS:
+            a = fd.constraints[k]
+            ids = [int(i) for i in a.ids]
+            data = a.data_frame.values if frame else a.data
+            data = np.array(data, dtype=float).reshape(len(ids), -1) if len(ids) else np.zeros((0, 0))
+            snap['order'].append(k)
+            snap['kinds'][k] = (ids, [[float(x) for x in r] for r in data])
+    return snap
+
+
+def snap_presc(snap, k):
+    if k not in snap['kinds']:
+        return []
+    ids, data = snap['kinds'][k]
+    return presc([[i, [None if x != x else x for x in r]] for i, r in zip(ids, data)])
+
+
+def exact_presc_equal(a, b):
+    return len(a) == len(b) and all(x[:2] == y[:2] and x[2].hex() == y[2].hex() for x, y in zip(a, b))
+
+
+def pool_of_case(case, pool=None):
+    """float bit pattern -> the decimal datum it was made from (so that a state can be handed to the model exactly)"""
+    pool = {} if pool is None else pool
+    for k, rows in case['tables'].items():
+        for _, r in rows:
+            for c in r:
+                if c is not None:
+                    pool[(DIG[k], val_float(c, DIG[k]).hex())] = c
+    for k, rows in case['scalars'].items():
+        for _, v in rows:
+            pool[(12, val_float(v, 12).hex())] = v
+    return pool
+
+
+def pool_of_ops(ops, pool):
+    def cells(k, rows):
+        for r in rows:
+            for c in r:
+                if c is not None:
+                    pool[(DIG[k], val_float(c, DIG[k]).hex())] = c
+    for op in ops:
+        if op[0] == 'poke':
+            cells(op[1], [[c for _, _, c in op[3]]])
+        elif op[0] == 'pokerow':
+            cells(op[1], [op[4]])
+        elif op[0] in ('setter',):
+            cells(op[1], op[3])
+        elif op[0] in ('loc', 'update', 'replace', 'add'):
+            cells(op[1], op[4])
+    return pool
+
+
+def state_case(base, snap, pool):
+    """the snapshot as a case (what a user who constructs the same content afresh would pass)"""
+    fin = {'mesh': base['mesh'], 'solution': snap['solution'], 'tables': {}, 'scalars': {}, 'order': list(snap['order'])}
+    if base.get('settings'):
+        fin['settings'] = base['settings']
+    dec = [True]
+
+    def cell(k, x):
+        if x != x:
+            return None
+        v = pool.get((DIG[k], x.hex()))
+        if v is None:
+            v = ['h', x.hex()]
+        if v[0] != 's':
+            dec[0] = False
+        return v
+    for k in snap['order']:
+        ids, data = snap['kinds'][k]
+        if k in TABLES:
+            fin['tables'][k] = [[i, [cell(k, x) for x in r]] for i, r in zip(ids, data)]
+        else:
+            fin['scalars'][k] = [[i, cell(k, r[0]) if len(r) == 1 else None] for i, r in zip(ids, data)]
+    fin['decimal'] = dec[0]
+    return fin
+
+
+def outside_reason(fin):
+    """None if the state is inside the property's quantifier (as delimited by ASSUMPTIONS), else a label"""
+    for k, rows in fin['tables'].items():
+        if any(len(r) != 3 for _, r in rows):
+            return 'width:' + k
+        if k != 'spring' and all(c is None for _, r in rows for c in r):
+            return 'all-nan:' + k
+        if any(c is not None and not np.isfinite(val_float(c, DIG[k])) for _, r in rows for c in r):
+            return 'non-finite:' + k
+    for k, rows in fin['scalars'].items():
+        if any(v is None or not np.isfinite(val_float(v, 12)) for _, v in rows):
+            return 'scalar-nan:' + k
+    if 'cflux' in fin['scalars'] and 'pure_cflux' in fin['scalars']:
+        return 'cflux+pure_cflux'
+    return None
+
+
+def gen_rows(rnd, k, n, decimal, density=.5):
+    p = DIG[k]
+    if k in SCALARS:
+        return [[rand_val(rnd, p, decimal)] for _ in range(n)]
+    rows = [gen_cells(rnd, p, decimal, 3, density) for _ in range(n)]
+    if all(c is None for r in rows for c in r):
+        rows[rnd.randrange(n)][rnd.randrange(3)] = rand_val(rnd, p, decimal)
+    return rows
+
+
+def gen_op(rnd, fd, caller, node_ids, decimal):
+    """one concrete op chosen by looking at the live object (so that it releases something that is prescribed,
+    prescribes something that is free, addresses rows / ids that exist)"""
+    present = [k for k in TABLES + SCALARS if k in fd.constraints and len(fd.constraints[k].ids)]
+    absent = [k for k in TABLES + SCALARS if k not in fd.constraints
+              and not (k in ('cflux', 'pure_cflux') and ('cflux' in fd.constraints or 'pure_cflux' in fd.constraints))]
+    menu = ['solution']
+    if present:
+        menu += ['poke'] * 7 + ['pokerow'] * 2 + ['scale'] + ['setter'] * 3 + ['loc'] * 3 + ['update'] * 3 + ['replace'] * 2 + ['pop']
+    if absent:
+        menu += ['add'] * 2
+    what = rnd.choice(menu)
+    if what == 'solution':
+        return ['solution', rnd.choice(['STATIC', 'HEAT'])]
+    if what == 'add':
+        k = rnd.choice(absent)
+        sub = rnd.sample(node_ids, rnd.randint(1, min(len(node_ids), 5)))
+        return ['add', k, rnd.choice(['update_data', 'setitem']), sub, gen_rows(rnd, k, len(sub), decimal)]
+    k = rnd.choice(present)
+    if what == 'pop':
+        return ['pop', k]
+    a = fd.constraints[k]
+    ids = [int(i) for i in a.ids]
+    n = len(ids)
+    live = np.array(a.data, dtype=float).reshape(n, -1)
+    width = live.shape[1]
+    p = DIG[k]
+    distinct = len(set(ids)) == n
+    if what in ('loc', 'update') and not distinct:     # a table read from a file has one row per line: ids repeat
+        what = 'poke'
+    if what in ('poke', 'pokerow', 'scale'):
+        vias = ['data', 'data', 'values']
+        if k in caller and np.shares_memory(caller[k], a.data):
+            vias.append('caller')
+        via = rnd.choice(vias)
+        if what == 'pokerow':
+            r = rnd.choice([-1, rnd.randrange(n)])
+            return ['pokerow', k, via, r, gen_rows(rnd, k, 1, decimal, density=.7)[0]]
+        if what == 'scale':
+            return ['scale', k, via, rnd.randrange(width), rnd.choice([2.0, -1.0, 0.5])]
+        cells = []
+        n_val = int(np.sum(~np.isnan(live)))
+        for _ in range(rnd.randint(1, 3)):
+            r, c = rnd.randrange(n), rnd.randrange(width)
+            if any(r == r0 and c == c0 for r0, c0, _ in cells):
+                continue
+            isnan = bool(np.isnan(live[r, c]))
+            if k in TABLES and not isnan and n_val > 1 and rnd.random() < .5:
+                cells.append([r, c, None])          # RELEASE a prescribed dof
+                n_val -= 1
+            else:
+                cells.append([r, c, rand_val(rnd, p, decimal)])     # prescribe a free dof / change a value
+                n_val += isnan
+        return ['poke', k, via, cells]
+    if what == 'setter':
+        return ['setter', k, rnd.choice(['data=', 'update_data', 'overwrite']), gen_rows(rnd, k, n, decimal)]
+    if what == 'loc':
+        pos = sorted(rnd.sample(range(n), rnd.randint(1, min(n, 3))))
+        how = rnd.choice(['loc', 'iloc'])
+        keys = [ids[j] for j in pos] if how == 'loc' else pos
+        return ['loc', k, how, keys, gen_rows(rnd, k, len(pos), decimal)]
+    if what == 'update':
+        fresh_ids = [i for i in node_ids if i not in set(ids)]
+        sub = rnd.sample(ids, rnd.randint(0, min(n, 2))) + rnd.sample(fresh_ids, rnd.randint(0, min(len(fresh_ids), 2)))
+        if not sub:
+            sub = [rnd.choice(ids)]
+        rnd.shuffle(sub)
+        return ['update', k, rnd.choice(['attr', 'attrs']), sub, gen_rows(rnd, k, len(sub), decimal)]
+    sub = rnd.sample(node_ids, rnd.randint(1, min(len(node_ids), 5)))
+    return ['replace', k, rnd.choice(['setitem', 'overwrite-ids', 'update-dict']), sub, gen_rows(rnd, k, len(sub), decimal)]
+
+
+def apply_op(fd, op, caller):
+    from femio import FEMAttribute
+    what = op[0]
+    if what == 'solution':
+        fd.settings['solution_type'] = op[1]
+        return
+    k = op[1]
+    p = DIG[k]
+    cons = fd.constraints
+    if what == 'pop':
+        cons.pop(k)
+        caller.pop(k, None)
+        return
+    if what in ('poke', 'pokerow', 'scale'):
+        via = op[2]
+        arr = caller[k] if via == 'caller' else cons[k].values if via == 'values' else cons[k].data
+        if what == 'poke':
+            for r, c, v in op[3]:
+                x = np.nan if v is None else val_float(v, p)
+                if arr.ndim == 1:
+                    arr[r] = x
+                else:
+                    arr[r, c] = x
+        elif what == 'pokerow':
+            row = rows_array([op[4]], p)[0]
+            arr[op[3]] = row[0] if arr.ndim == 1 else row
+        elif arr.ndim == 1:
+            arr[:] *= op[4]
+        else:
+            arr[:, op[3]] *= op[4]
+        return
+    rows = op[3] if what == 'setter' else op[4]
+    A = rows_array(rows, p)
+    if k in cons and np.ndim(cons[k].data) == 1:      # a scalar kind as the reader builds it: keep its rank
+        A = A.ravel()
+    if what == 'setter':
+        if op[2] == 'data=':
+            cons[k].data = A
+        elif op[2] == 'update_data':
+            cons[k].update_data(A)
+        else:
+            X.quiet(cons.overwrite, k, A)
+        caller[k] = A
+    elif what == 'loc':
+        if op[2] == 'loc':
+            cons[k].loc[list(op[3])].data = A
+        else:
+            cons[k].iloc[list(op[3])].data = A
+    elif what == 'update':
+        if op[2] == 'attr':
+            cons[k].update(list(op[3]), A, allow_overwrite=True)
+        else:
+            X.quiet(cons.update_data, np.array(op[3], dtype=np.int64), {k: A}, allow_overwrite=True)
+    elif what in ('replace', 'add'):
+        ids = np.array(op[3], dtype=np.int64)
+        if op[2] in ('setitem', 'update-dict'):
+            at = FEMAttribute(k, ids=ids, data=A, silent=True)
+            if op[2] == 'setitem':
+                cons[k] = at
+            else:
+                cons.update({k: at})
+        elif op[2] == 'overwrite-ids':
+            X.quiet(cons.overwrite, k, A, ids=ids)
+        else:
+            X.quiet(cons.update_data, ids, {k: A})
+        caller[k] = A
+    else:
+        raise ValueError(op)
+
+
+TK = {'boundary': 0, 'spring': 1, 'cload': 2}
+SK = {'fixtemp': 0, 'cflux': 1, 'pure_cflux': 2}
+
+
+def model_ops_of(fd, op, caller):
+    """the op in the alphabet of the Lean history model (`Femio.Fistr.ObjOp`, driver syntax of `c03.hist`), from the state
+    of the object BEFORE the op (row count, ids, aliasing of the caller's array); None = not in the modelled alphabet"""
+    what = op[0]
+    if what == 'solution':
+        return ['sol ' + C.esc(op[1])]
+    k = op[1]
+    tab = k in TK
+    pre = f't {TK[k]} ' if tab else f's {SK[k]} '
+
+    def row(r):
+        return C.enc_list(r, enc_cell) if tab else X.enc_sci(r[0][1:])
+    if what == 'pop':
+        return [f'pt {TK[k]} 0' if tab else f'ps {SK[k]} 0']
+    if what in ('replace', 'add'):
+        body = str(len(op[3])) + ''.join(f' {i} {row(r)}' for i, r in zip(op[3], op[4]))
+        return [(f'pt {TK[k]} 1 ' if tab else f'ps {SK[k]} 1 ') + body]
+    a = fd.constraints[k]
+    n = len(a.ids)
+    if what in ('poke', 'pokerow'):
+        if op[2] == 'caller' and not (k in caller and np.shares_memory(caller[k], a.data)):
+            return []
+        if what == 'pokerow':
+            return [pre + f'row {op[3] % n} {row(op[4])}']
+        return [pre + (f'cell {r} {c} {enc_cell(v)}' if tab else f'row {r} {X.enc_sci(v[1:])}') for r, c, v in op[3]]
+    if what == 'setter':
+        return [pre + 'set ' + C.enc_list(op[3], row)]
+    if what == 'loc':
+        ids = [int(i) for i in a.ids]
+        pos = [ids.index(i) for i in op[3]] if op[2] == 'loc' else list(op[3])
+        return [pre + 'wt ' + C.enc_list(pos) + ' ' + C.enc_list(op[4], row)]
+    return None     # scale (values leave the decimals), update (pandas combine_first)
+
+
+def apply_tracked(fd, op, caller, track):
+    """apply_op; when it took effect, `track` receives its rendering for the Lean history model"""
+    try:
+        mops = model_ops_of(fd, op, caller)
+    except Exception:  # noqa      (values that are not decimals, ...)
+        mops = None
+    apply_op(fd, op, caller)
+    track.append(mops)
+
+
+def apply_ops(ctx, fd, ops, caller, track):
+    """replay recorded ops on a rebuilt object (same tolerance of raising ops as at generation time)"""
+    for op in ops:
+        try:
+            apply_tracked(fd, op, caller, track)
+        except Exception:  # noqa
+            pass
+
+
+def gen_edits(ctx, fd, caller, node_ids, decimal, n, track):
+    """generate n ops against the live object, apply each at once, return them (concrete: replayable on a rebuilt object)"""
+    rnd = ctx.rng
+    ops = []
+    for _ in range(n):
+        op = gen_op(rnd, fd, caller, node_ids, decimal)
+        ops.append(op)
+        label = op[0] + (':' + str(op[2]) if len(op) > 2 and isinstance(op[2], str) else '')
+        try:
+            apply_tracked(fd, op, caller, track)
+            ctx.count('edit:' + label)
+        except Exception as e:  # noqa
+            ctx.count('edit-raises:' + label + ':' + type(e).__name__)
+    # keep the final state inside the quantifier where an edit sequence left a boundary / cload table without any value
+    for k in ('boundary', 'cload'):
+        if k in fd.constraints:
+            a = fd.constraints[k]
+            if len(a.ids) and bool(np.all(np.isnan(np.asarray(a.data, dtype=float)))):
+                ids = [int(i) for i in a.ids]
+                op = ['replace', k, 'setitem', ids, gen_rows(rnd, k, len(ids), decimal)]
+                ops.append(op)
+                apply_tracked(fd, op, caller, track)
+                ctx.count('edit:refill-all-nan-table')
+    return ops
+
+
+def frame_view(fd, base, pool):
+    """ObjSt.view {fromArray := false}: what a writer would take that builds the !BOUNDARY / !CLOAD rows (the two sections
+    made by `_generate_constraints`) from the pandas frames and everything else from `.data`"""
+    st, fr = state_case(base, snapshot(fd), pool), state_case(base, snapshot(fd, frame=True), pool)
+    for k in ('boundary', 'cload'):
+        if k in st['tables']:
+            st['tables'][k] = fr['tables'][k]
+    st['decimal'] = st['decimal'] and fr['decimal']
+    return st
+
+
+def encodable(st):
+    return st['decimal'] and all(v is not None for rows in st['scalars'].values() for _, v in rows)
+
+
+def hist_tie(ctx, rep, init, track, fd, base, pool, label):
+    """tie of the Lean history model (Model/FistrCntHist.lean): ((ObjSt.fresh init).run ops).view cfg must be the public
+    state (.ids, .data) of the real object (cfg = fromArray) and what its pandas frames hold (cfg = frame)"""
+    if ctx.driver is None or not track:
+        return
+    if any(m is None for m in track) or not encodable(init):
+        ctx.count('history-model:outside its alphabet (scale / update / non-decimal values)')
+        return
+    mo = [m for ms in track for m in ms]
+    for cfg in (1, 0):
+        st = state_case(base, snapshot(fd), pool) if cfg else frame_view(fd, base, pool)
+        if not encodable(st):
+            ctx.count('history-model:state not encodable')
+            return
+        reply = ctx.driver.ask(f'c03.hist {cfg} {enc_case(init)} {C.enc_list(mo)}')
+        same = reply.split() == ('ok ' + enc_case(st)).split()
+        if cfg and not same:
+            rep.disagree(f'history model ({label}): public state (.ids, .data) after the modifications', enc_case(st), reply[:2000])
+        if not cfg:
+            # what the frames hold is not an observable of this property (it is what the hypothetical writer of
+            # C03_history_counterexample_frame_writer would read): recorded, never part of the verdict
+            ctx.count('history-model:boundary / cload as the pandas frames hold them: ' + ('as modelled' if same else 'NOT as modelled'))
+    ctx.count('history-model:compared')
 
 
 # ------------------------------------------------------------------ model
@@ -266,86 +738,265 @@ def group_texts(rnd, case, msh, cnt):
 
 # ------------------------------------------------------------------ run
 
-def eval_case(ctx, case, groups=True):
-    rnd = ctx.rng
-    n_presc = sum(len(presc_of_case(case, k)) for k in TABLES + SCALARS)
-    desc = {'solution': case['solution'], 'decimal': case['decimal'], 'mesh_types': list(case['mesh']['blocks']),
-            'n_nodes': len(case['mesh']['nodes']), 'tables': {k: len(v) for k, v in case['tables'].items()},
-            'scalars': {k: len(v) for k, v in case['scalars'].items()}, 'prescriptions': n_presc}
-    ctx.case(C.hashlib.sha1(C.json.dumps(case, sort_keys=True).encode()).hexdigest(), sample=desc, nontrivial=n_presc > 0)
-    ctx.count('solution:' + case['solution'])
-    ctx.count('numbers:' + ('format-digit decimal' if case['decimal'] else 'arbitrary double'))
-    ctx.count('ids:' + str(case['mesh']['id_style']) + '/' + case['mesh']['order'])
-    for k in list(case['tables']) + list(case['scalars']):
-        ctx.count('kind:' + k)
-    for k, rows in case['tables'].items():
-        for _, r in rows:
-            ctx.count('nan-pattern:' + ''.join('x' if c is not None else '.' for c in r))
-    inp = {'case': case}
-    try:
-        msh, cnt = real_write(ctx, case)
-    except Exception as e:  # noqa
-        ctx.fail('roundtrip:write-raises:' + type(e).__name__, f'write("fistr") raised {e!r}', inp, repr(e))
-        return
-    if ctx.driver is not None and case['decimal']:
-        ml = model_write(ctx, case)
-        if ml != cnt:
-            k = next((k for k, (a, b) in enumerate(zip(ml or [], cnt)) if a != b), min(len(ml or []), len(cnt)))
-            ctx.disagree('cnt text', inp, {'line': k, 'text': cnt[k] if k < len(cnt) else None},
-                         {'line': k, 'text': ml[k] if ml and k < len(ml) else None})
-    try:
-        got = real_read(ctx, msh, cnt)
-    except Exception as e:  # noqa
-        ctx.fail('roundtrip:read-raises:' + type(e).__name__, f'reading the written files raised {e!r}', inp, repr(e))
-        return
-    if got['solution'] != case['solution']:
-        ctx.fail('roundtrip:solution', f'solution type {case["solution"]} read back as {got["solution"]}', inp, got['solution'])
+class Report:
+    """findings (the REAL CODE violates the PROPERTY) and disagreements (model != implementation) of one evaluation:
+    `eval_case` forwards them to ctx together with the complete input, `replay` returns them"""
+
+    def __init__(self):
+        self.findings, self.disagreements = [], []
+
+    def fail(self, signature, what, observed=None):
+        self.findings.append((signature, what, observed))
+
+    def disagree(self, what, impl, model):
+        self.disagreements.append((what, impl, model))
+
+
+def judge_read(rep, label, fin, got, hist=''):
+    """the property's comparison: what was read back vs the state `fin` that was written"""
+    if got['solution'] != fin['solution']:
+        rep.fail(label + ':solution', f'solution type {fin["solution"]}{hist} read back as {got["solution"]}', got['solution'])
     for k in TABLES + SCALARS:
-        want = presc_of_case(case, k)
+        want = presc_of_case(fin, k)
         have = presc(got[k]) if got[k] is not None else []
         if not same_presc(have, want, TOL[k]):
-            ctx.fail('roundtrip:' + k, f'{k}: prescriptions written {want[:6]} read back {have[:6]}', inp, {'read': have[:20]})
-    ids = [i for i, _ in case['mesh']['nodes']]
+            rep.fail(label + ':' + k, f'{k}: prescriptions of the object{hist} at write() {want[:6]} read back {have[:6]}',
+                     {'state_written': want[:20], 'read': have[:20]})
+
+
+def check_object(ctx, rep, fd, base, pool, tag, label, hist=''):
+    """THE ORACLE on a live object: snapshot of its current public state -> write -> the conditions of the object are still
+    the same -> read back -> solution type / prescription sets of the snapshot; the model is fed with the snapshot"""
+    snap = snapshot(fd)
+    fin = state_case(base, snap, pool)
+    out = {'final': fin, 'outside': outside_reason(fin), 'msh': None, 'cnt': None, 'got': None, 'fd': None}
+    try:
+        msh, cnt = write_obj(ctx, fd, tag)
+    except Exception as e:  # noqa
+        if out['outside'] is None:
+            rep.fail(f'{label}:write-raises:{type(e).__name__}', f'write("fistr"){hist} raised {e!r}', repr(e))
+        else:
+            ctx.count(f'outside:{out["outside"]}:raises:{type(e).__name__}')
+        return out
+    out.update(msh=msh, cnt=cnt)
+    after = snapshot(fd)
+    if after['solution'] != snap['solution']:
+        rep.fail(label + ':write-changed-conditions:solution', f'write() changed the solution type of the object from '
+                 f'{snap["solution"]} to {after["solution"]}', after['solution'])
+    for k in TABLES + SCALARS:
+        pa, pb = snap_presc(snap, k), snap_presc(after, k)
+        if not exact_presc_equal(pa, pb):
+            rep.fail(label + ':write-changed-conditions:' + k, f'{k}: write() changed the prescriptions the object holds: '
+                     f'before {pa[:6]} after {pb[:6]}', {'before': pa[:20], 'after': pb[:20]})
+    if out['outside'] is not None:
+        ctx.count('outside:' + out['outside'] + ':written')
+        return out
+    defaults = not base.get('settings')      # the model (CntIn) is of write_cnt with every other setting at its default
+    if ctx.driver is not None and fin['decimal'] and defaults:
+        ml = model_write(ctx, fin)
+        if ml != cnt:
+            j = next((j for j, (x, y) in enumerate(zip(ml or [], cnt)) if x != y), min(len(ml or []), len(cnt)))
+            what = f'cnt text ({label})'
+            fr = frame_view(fd, base, pool)
+            if encodable(fr) and model_write(ctx, fr) == cnt:
+                what += (' - the written text is the text of what the pandas frames hold, not of (.ids, .data): the tree '
+                         'implements HistCfg.fromArray = false (C03_history_counterexample_frame_writer applies, '
+                         'C03_history_roundtrip does not)')
+            rep.disagree(what, {'line': j, 'text': cnt[j] if j < len(cnt) else None},
+                         {'line': j, 'text': ml[j] if ml and j < len(ml) else None})
+    try:
+        got, fd2 = real_read(ctx, msh, cnt, tag=tag + 'r', want_fd=True)
+    except Exception as e:  # noqa
+        rep.fail(f'{label}:read-raises:{type(e).__name__}', f'reading the written files raised {e!r}', repr(e))
+        return out
+    out.update(got=got, fd=fd2)
+    judge_read(rep, label, fin, got, hist)
     if ctx.driver is not None:
-        mr = model_read(ctx, {'ALL': ids}, cnt)
+        mr = model_read(ctx, {'ALL': [i for i, _ in base['mesh']['nodes']]}, cnt)
         k = 'model-raises' if mr is None else diff_read(got, mr)
         if k:
-            ctx.disagree('cnt read: ' + k, inp, got.get(k), None if mr is None else mr.get(k))
-        # theorem C03_file_roundtrip instantiated on this case: its hypothesis `WFCnt c` must hold for the generated
-        # (in-quantifier) input and its right-hand side `expectedCnt c` must be what the REAL reader returned
-        if case['decimal']:
-            wf, exp = model_expected(ctx, case)
+            rep.disagree(f'cnt read ({label}): ' + k, got.get(k), None if mr is None else mr.get(k))
+        # theorem C03_file_roundtrip instantiated on this state: its hypothesis `WFCnt c` must hold for the (in-quantifier)
+        # state and its right-hand side `expectedCnt c` must be what the REAL reader returned
+        if fin['decimal'] and defaults:
+            wf, exp = model_expected(ctx, fin)
             ctx.count('theorem-hypothesis WFCnt:' + str(wf).lower())
             if not wf:
-                ctx.disagree('generated in-quantifier case is outside Femio.C03.WFCnt (hypothesis of C03_file_roundtrip)',
-                             inp, 'in quantifier', 'WFCnt = false')
+                rep.disagree(f'in-quantifier state is outside Femio.C03.WFCnt (hypothesis of C03_file_roundtrip) ({label})',
+                             'in quantifier', 'WFCnt = false')
             else:
                 k = diff_read(got, exp)
                 if k:
-                    ctx.disagree('expectedCnt (right-hand side of C03_file_roundtrip) vs real reader: ' + k, inp,
+                    rep.disagree(f'expectedCnt (right-hand side of C03_file_roundtrip) vs real reader ({label}): ' + k,
                                  got.get(k), exp.get(k))
-    if not groups or n_presc == 0:
+    return out
+
+
+def judge_other_file(ctx, rep, label, fin, cnt, msh2, cnt2, what):
+    """a second control file that must carry the same state: identical bytes expected; when the bytes differ the property
+    itself decides (read it back and compare with the state) and a mere textual difference is a broken correspondence"""
+    if cnt2 == cnt:
         return
-    # node-group name vs explicit listing
-    msh2, by_name, explicit, allg, n_rows = group_texts(rnd, case, msh, cnt)
-    ctx.count('group-rows', n_rows)
-    ginp = {'case': case, 'msh': msh2, 'cnt_by_name': by_name, 'cnt_explicit': explicit, 'groups': allg}
+    n0 = len(rep.findings)
     try:
-        a = real_read(ctx, msh2, by_name, tag='g1')
-        b = real_read(ctx, msh2, explicit, tag='g2')
+        judge_read(rep, label, fin, real_read(ctx, msh2, cnt2, tag='x'), ' (' + what + ')')
     except Exception as e:  # noqa
-        ctx.fail('group:read-raises:' + type(e).__name__, f'reading a control file that addresses node groups raised {e!r}', ginp, repr(e))
-        return
-    for k in TABLES + SCALARS:
-        pa = presc(a[k]) if a[k] is not None else []
-        pb = presc(b[k]) if b[k] is not None else []
-        if sorted(set(pa)) != sorted(set(pb)):
-            ctx.fail('group:' + k, f'{k}: group-name file denotes {pa[:6]}, explicit listing denotes {pb[:6]}', ginp, {'by_name': pa[:20], 'explicit': pb[:20]})
-    if ctx.driver is not None:
-        mr = model_read(ctx, allg, by_name)
-        k = 'model-raises' if mr is None else diff_read(a, mr)
-        if k:
-            ctx.disagree('cnt read (group names): ' + k, ginp, a.get(k), None if mr is None else mr.get(k))
+        rep.fail(f'{label}:read-raises:{type(e).__name__}', f'reading the files of {what} raised {e!r}', repr(e))
+    if len(rep.findings) == n0:
+        j = next((j for j, (x, y) in enumerate(zip(cnt, cnt2)) if x != y), min(len(cnt), len(cnt2)))
+        rep.disagree(f'{what}: control file differs from the first one although both read back to the same conditions',
+                     {'line': j, 'first': cnt[j] if j < len(cnt) else None}, {'line': j, 'other': cnt2[j] if j < len(cnt2) else None})
+
+
+def evaluate(ctx, rep, inp, plan=None):
+    """plan = None: re-execute `inp` exactly as recorded (replay).  Otherwise generate the open parts of the input with
+    ctx.rng - plan = {'n_edits', 'groups', 'extra'} - and record them in `inp`, so that `inp` is a complete replay"""
+    rnd = ctx.rng
+    case = inp['case']
+    ids = [i for i, _ in case['mesh']['nodes']]
+    caller = {}
+    fd = build_fem(case, caller)
+    pool = pool_of_case(case)
+    track = []
+    if plan is not None and plan.get('n_edits'):
+        case['edits'] = gen_edits(ctx, fd, caller, ids, case['decimal'], plan['n_edits'], track)
+    else:
+        apply_ops(ctx, fd, case.get('edits', []), caller, track)
+    edits = case.get('edits', [])
+    pool_of_ops(edits, pool)
+    hist_tie(ctx, rep, case, track, fd, case, pool, 'roundtrip')
+    hist = f' after {len(edits)} public modification(s)' if edits else ''
+    o = check_object(ctx, rep, fd, case, pool, 'w', 'roundtrip', hist)
+    fin = o['final']
+    res = {'final': fin, 'outside': o['outside'], 'cnt': o['cnt']}
+    if not edits:       # nothing happened between construction and write: the state is what the caller passed in
+        for k in TABLES + SCALARS:
+            if not exact_presc_equal(presc_of_case(case, k), presc_of_case(fin, k)):
+                rep.disagree('the constructed object does not hold the table it was given: ' + k,
+                             presc_of_case(fin, k)[:10], presc_of_case(case, k)[:10])
+    if o['got'] is None or o['outside'] is not None:
+        return res
+    msh, cnt = o['msh'], o['cnt']
+    extra = plan.get('extra') if plan is not None else inp.get('extra')
+    if extra:
+        inp['extra'] = extra
+    # --- the same object written a second time / an independently constructed object with the same content
+    if extra == 'twice':
+        # write -> (0-2 further public modifications) -> write again, same object
+        track2 = []
+        if plan is not None:
+            inp['twice_edits'] = gen_edits(ctx, fd, caller, ids, case['decimal'], rnd.choice([0, 0, 1, 2]), track2)
+        else:
+            apply_ops(ctx, fd, inp.get('twice_edits', []), caller, track2)
+        ed2 = inp.get('twice_edits', [])
+        pool_of_ops(ed2, pool)
+        if ed2:
+            hist_tie(ctx, rep, case, track + track2, fd, case, pool, 'second-write')
+            check_object(ctx, rep, fd, case, pool, 'w2', 'second-write',
+                         f' written once, modified by {len(ed2)} more public modification(s) and written again')
+        else:
+            try:
+                msh2, cnt2 = write_obj(ctx, fd, 'w2')
+                judge_other_file(ctx, rep, 'second-write', fin, cnt, msh2, cnt2, 'second write of the same object')
+            except Exception as e:  # noqa
+                rep.fail(f'second-write:write-raises:{type(e).__name__}', f'the second write("fistr") of the same object raised {e!r}', repr(e))
+    if extra == 'fresh':
+        try:
+            msh2, cnt2 = write_obj(ctx, build_fem(fin), 'wf')
+            judge_other_file(ctx, rep, 'fresh-object', fin, cnt, msh2, cnt2,
+                             'fresh object constructed with the content the modified object had at write()')
+        except Exception as e:  # noqa
+            rep.fail(f'fresh-object:write-raises:{type(e).__name__}', f'write("fistr") of a fresh object with the same content raised {e!r}', repr(e))
+    # --- node-group name vs explicit listing
+    n_presc = sum(len(presc_of_case(fin, k)) for k in TABLES + SCALARS)
+    by_name_fd = None
+    want_groups = plan['groups'] if plan is not None else 'cnt_by_name' in inp
+    if want_groups and (n_presc > 0 or plan is None):
+        if plan is not None:
+            msh2, by_name, explicit, allg, n_rows = group_texts(rnd, case, msh, cnt)
+            ctx.count('group-rows', n_rows)
+            inp.update(msh=msh2, cnt_by_name=by_name, cnt_explicit=explicit, groups=allg)
+        msh2, by_name, explicit, allg = inp['msh'], inp['cnt_by_name'], inp['cnt_explicit'], inp['groups']
+        try:
+            a, by_name_fd = real_read(ctx, msh2, by_name, tag='g1', want_fd=True)
+            b = real_read(ctx, msh2, explicit, tag='g2')
+        except Exception as e:  # noqa
+            rep.fail('group:read-raises:' + type(e).__name__, f'reading a control file that addresses node groups raised {e!r}', repr(e))
+            return res
+        for k in TABLES + SCALARS:
+            pa = presc(a[k]) if a[k] is not None else []
+            pb = presc(b[k]) if b[k] is not None else []
+            if sorted(set(pa)) != sorted(set(pb)):
+                rep.fail('group:' + k, f'{k}: group-name file denotes {pa[:6]}, explicit listing denotes {pb[:6]}',
+                         {'by_name': pa[:20], 'explicit': pb[:20]})
+        if ctx.driver is not None:
+            mr = model_read(ctx, allg, by_name)
+            k = 'model-raises' if mr is None else diff_read(a, mr)
+            if k:
+                rep.disagree('cnt read (group names): ' + k, a.get(k), None if mr is None else mr.get(k))
+    # --- read -> modify -> write -> read
+    if extra == 'rmw':
+        if plan is not None:
+            inp['rmw'] = {'source': 'by-name' if (by_name_fd is not None and rnd.random() < .4) else 'written'}
+        rmw = inp.get('rmw')
+        if rmw is None:         # a recorded input whose evaluation ended before this stage
+            return res
+        src = by_name_fd if rmw['source'] == 'by-name' else o['fd']
+        if src is None:
+            return res
+        track, before = [], state_case(case, snapshot(src), pool)
+        if plan is not None:
+            rmw['edits'] = gen_edits(ctx, src, {}, ids, case['decimal'], rnd.randint(0, 3), track)
+        else:
+            apply_ops(ctx, src, rmw.setdefault('edits', []), {}, track)
+        pool_of_ops(rmw['edits'], pool)
+        hist_tie(ctx, rep, before, track, src, case, pool, 'rmw')
+        o2 = check_object(ctx, rep, src, case, pool, 'm', 'rmw',
+                          f' read from {"a file addressing node groups" if rmw["source"] == "by-name" else "the written file"}'
+                          f' and modified by {len(rmw["edits"])} public modification(s)')
+        res['rmw_final'] = o2['final']
+    return res
+
+
+def eval_case(ctx, case, groups=True, n_edits=0, extra=None):
+    rep = Report()
+    inp = {'case': case}
+    res = None
+    try:
+        res = evaluate(ctx, rep, inp, {'n_edits': n_edits, 'groups': groups, 'extra': extra})
+    finally:
+        for sig, what, observed in rep.findings:
+            ctx.fail(sig, what, inp, observed)
+        for what, impl, model in rep.disagreements:
+            ctx.disagree(what, inp, impl, model)
+    fin = res['final']
+    edits = case.get('edits', [])
+    n_presc = sum(len(presc_of_case(fin, k)) for k in TABLES + SCALARS)
+    desc = {'solution': fin['solution'], 'decimal': fin['decimal'], 'mesh_types': list(case['mesh']['blocks']),
+            'n_nodes': len(case['mesh']['nodes']), 'tables': {k: len(v) for k, v in fin['tables'].items()},
+            'scalars': {k: len(v) for k, v in fin['scalars'].items()}, 'prescriptions': n_presc,
+            'modifications_before_write': [op[0] for op in edits], 'extra': inp.get('extra')}
+    ctx.case(C.hashlib.sha1(C.json.dumps(inp, sort_keys=True).encode()).hexdigest(), sample=desc, nontrivial=n_presc > 0)
+    ctx.count('solution:' + fin['solution'])
+    ctx.count('numbers:' + ('format-digit decimal' if fin['decimal'] else 'arbitrary double'))
+    ctx.count('ids:' + str(case['mesh']['id_style']) + '/' + case['mesh']['order'])
+    ctx.count('history:' + ('as constructed' if not edits else 'modified before write'))
+    ctx.count('settings:' + ('defaults' if not case.get('settings') else '+'.join(sorted(case['settings']))))
+    if inp.get('extra'):
+        ctx.count('extra:' + inp['extra'] + (':' + inp['rmw']['source'] if 'rmw' in inp else '')
+                  + (':modified between the writes' if inp.get('twice_edits') else ''))
+    if edits:
+        was = {k: presc_of_case(case, k) for k in TABLES + SCALARS}
+        now = {k: presc_of_case(fin, k) for k in TABLES + SCALARS}
+        key = lambda ps: {(i, d) for i, d, _ in ps}      # noqa
+        ctx.count('net-effect:released', sum(len(key(was[k]) - key(now[k])) for k in was))
+        ctx.count('net-effect:added', sum(len(key(now[k]) - key(was[k])) for k in was))
+        ctx.count('net-effect:changed', sum(1 for k in was for p in now[k] for q in was[k] if p[:2] == q[:2] and p[2].hex() != q[2].hex()))
+    for k in list(fin['tables']) + list(fin['scalars']):
+        ctx.count('kind:' + k)
+    for k, rows in fin['tables'].items():
+        for _, r in rows:
+            ctx.count('nan-pattern:' + ''.join('x' if c is not None else '.' for c in r))
 
 
 def outside_streams(ctx, n):
@@ -389,6 +1040,7 @@ def outside_streams(ctx, n):
 
 
 def run(ctx):
+    rnd = ctx.rng
     n = ctx.n(250, 2500)
     if ctx.driver is None:
         n *= 2
@@ -397,41 +1049,26 @@ def run(ctx):
         if r.get('fails'):
             ctx.fail(obj.get('signature', 'corpus:' + name), 'corpus case fails: ' + name, obj.get('input'), r)
     for _ in range(n):
-        eval_case(ctx, gen_case(ctx.rng))
+        case = gen_case(rnd)
+        n_edits = rnd.choice([0, 0, 0, 1, 1, 2, 3, 4])
+        extra = rnd.choice(['twice', 'fresh', 'fresh', 'rmw', 'rmw'] + [None] * 5)
+        eval_case(ctx, case, n_edits=n_edits, extra=extra)
     outside_streams(ctx, ctx.n(8, 40))
 
 
 def replay(ctx, obj):
     inp = obj['input']
-    case = inp['case']
-    res = {}
+    rep = Report()
     try:
-        msh, cnt = real_write(ctx, case)
-        got = real_read(ctx, msh, cnt)
+        res = evaluate(ctx, rep, inp, None)
     except Exception as e:  # noqa
         return {'fails': True, 'raised': repr(e)}
-    bad = []
-    if got['solution'] != case['solution']:
-        bad.append(['solution', case['solution'], got['solution']])
-    for k in TABLES + SCALARS:
-        want = presc_of_case(case, k)
-        have = presc(got[k]) if got[k] is not None else []
-        if not same_presc(have, want, TOL[k]):
-            bad.append([k, want[:10], have[:10]])
-    res['roundtrip_differences'] = bad
-    if 'cnt_by_name' in inp:
-        try:
-            a = real_read(ctx, inp['msh'], inp['cnt_by_name'], tag='g1')
-            b = real_read(ctx, inp['msh'], inp['cnt_explicit'], tag='g2')
-            for k in TABLES + SCALARS:
-                pa = presc(a[k]) if a[k] is not None else []
-                pb = presc(b[k]) if b[k] is not None else []
-                if sorted(set(pa)) != sorted(set(pb)):
-                    bad.append(['group:' + k, pa[:10], pb[:10]])
-        except Exception as e:  # noqa
-            bad.append(['group:raises', repr(e)])
-        res['group_differences'] = [x for x in bad if str(x[0]).startswith('group')]
-    if ctx.driver is not None and case.get('decimal'):
-        res['model_text_equals_written_text'] = model_write(ctx, case) == cnt
-    res['fails'] = bool(bad)
-    return res
+    out = {'fails': bool(rep.findings),
+           'property_violations': [[sig, what] for sig, what, _ in rep.findings],
+           'model_vs_implementation': [[what, impl, model] for what, impl, model in rep.disagreements],
+           'state_of_the_object_at_write': {k: presc_of_case(res['final'], k)[:12] for k in TABLES + SCALARS},
+           'outside_quantifier': res['outside']}
+    if ctx.driver is not None and res['final'].get('decimal') and res['cnt'] is not None and res['outside'] is None \
+            and not inp['case'].get('settings'):
+        out['model_text_equals_written_text'] = model_write(ctx, res['final']) == res['cnt']
+    return out
